@@ -374,16 +374,25 @@ def _run_strings(griffe, acc):
                     "param-annotation": f"def f(p: {src_ann}): ...", "returns": f"def f(p) -> {src_ann}: ...",
                     "decorator": f"@({src_ann})\ndef g(): ...", "base": f"class K({src_ann}): ...",
                 }[slot]
-                mod = griffe.visit("m", filepath=Path("m.py"), code=head + body + "\n")
-                stored = _stored(mod, slot)
-                expect_parsed = slot in ANN_SLOTS and not future
-                exp = parsed if expect_parsed else src_ann
-                case = {"annotation": src_ann, "slot": slot, "future": future}
-                ok = stored is not None and _same(ast.parse(str(stored), mode="eval").body, ast.parse(exp, mode="eval").body)
-                acc.case(case, outcome=("parsed" if expect_parsed else "verbatim") + (":ok" if ok else ":bad"), nontrivial=True)
-                if not ok:
-                    lit = "literal" if any(sp + "[" in src_ann for sp in LIT_SPELLINGS) else "plain"
-                    acc.violation(f"strings/{slot}/{'future' if future else 'nofuture'}/{lit}", f"{src_ann} in {slot} ({'with' if future else 'without'} postponed evaluation) is stored as {str(stored)!r}, expected {exp!r}", case)
+                # the module on its own, and as a submodule of a package whose __init__ has the OPPOSITE setting (postponed evaluation is per module)
+                for where in ("top-level", "in-package-with-opposite-setting"):
+                    if where == "top-level":
+                        mod = griffe.visit("m", filepath=Path("m.py"), code=head + body + "\n")
+                    else:
+                        if slot not in ANN_SLOTS:
+                            continue
+                        pkg = griffe.visit("pkg", filepath=Path("pkg/__init__.py"), code=("" if future else "from __future__ import annotations\n") + "z = 1\n")
+                        mod = griffe.visit("m", filepath=Path("pkg/m.py"), code=head + body + "\n", parent=pkg)
+                        pkg.set_member("m", mod)
+                    stored = _stored(mod, slot)
+                    expect_parsed = slot in ANN_SLOTS and not future
+                    exp = parsed if expect_parsed else src_ann
+                    case = {"annotation": src_ann, "slot": slot, "future": future, "where": where}
+                    ok = stored is not None and _same(ast.parse(str(stored), mode="eval").body, ast.parse(exp, mode="eval").body)
+                    acc.case(case, outcome=("parsed" if expect_parsed else "verbatim") + (":ok" if ok else ":bad"), nontrivial=True)
+                    if not ok:
+                        lit = "literal" if any(sp + "[" in src_ann for sp in LIT_SPELLINGS) else "plain"
+                        acc.violation(f"strings/{slot}/{'future' if future else 'nofuture'}/{lit}" + ("" if where == "top-level" else "/submodule"), f"{src_ann} in {slot} ({'with' if future else 'without'} postponed evaluation, {where}) is stored as {str(stored)!r}, expected {exp!r}", case)
 
 
 def run_shard(shard, tier):
